@@ -149,7 +149,21 @@ def epoch_conversion(ct):
     """the seconds since the epoch must be calendar.timegm(<value>.utctimetuple()) (or timegm of the time tuple of the
     value converted to UTC with astimezone): timetuple() keeps the local wall clock fields of an aware value, and
     time.mktime / naive .timestamp() interpret them in the zone of the machine"""
-    calls = [n for n in ast.walk(ct.node) if isinstance(n, ast.Call) and (dotted(n.func) or '').endswith('timegm')]
+    # the method and the helper methods of its class it calls (``self._get_timestamp(value, milliseconds)``), whatever their names
+    nodes, seen, work = [], set(), [ct]
+    while work:
+        g = work.pop()
+        if id(g) in seen:
+            continue
+        seen.add(id(g))
+        nodes.append(g.node)
+        for n in ast.walk(g.node):
+            if isinstance(n, ast.Call) and isinstance(n.func, ast.Attribute) and isinstance(n.func.value, ast.Name) and g.cls is not None and \
+                    n.func.value.id in ('self', 'cls', g.cls.name):
+                h = g.cls.resolve(n.func.attr)
+                if h is not None and not h.module.external and len(seen) < 12:
+                    work.append(h)
+    calls = [n for node in nodes for n in ast.walk(node) if isinstance(n, ast.Call) and (dotted(n.func) or '').endswith('timegm')]
     if not calls:
         return 'seconds since the epoch are not computed through calendar.timegm(value.utctimetuple())'
     for n in calls:
